@@ -6,6 +6,8 @@ import GocoinV.Spec.QdbMap
 namespace GocoinV.Proofs.C19
 open GocoinV GocoinV.Qdb GocoinV.QdbSpec
 
+variable {eg : Bool}
+
 /-! ### the part of the state that the refinement looks at -/
 
 /-- two states agree on everything except the directory, the effect list and disk bookkeeping -/
@@ -16,27 +18,28 @@ structure Frame (a b : DB) : Prop where
   opts : a.opts = b.opts
   noSync : a.noSync = b.noSync
   pending : a.pending = b.pending
+  eager : a.eager = b.eager
 
-theorem Frame.refl (a : DB) : Frame a a := ⟨rfl, rfl, rfl, rfl, rfl, rfl⟩
+theorem Frame.refl (a : DB) : Frame a a := ⟨rfl, rfl, rfl, rfl, rfl, rfl, rfl⟩
 
 theorem Frame.trans {a b c : DB} (h1 : Frame a b) (h2 : Frame b c) : Frame a c :=
   ⟨h1.index.trans h2.index, h1.failed.trans h2.failed, h1.volatile.trans h2.volatile,
-   h1.opts.trans h2.opts, h1.noSync.trans h2.noSync, h1.pending.trans h2.pending⟩
+   h1.opts.trans h2.opts, h1.noSync.trans h2.noSync, h1.pending.trans h2.pending, h1.eager.trans h2.eager⟩
 
 theorem frame_emit (db : DB) (t : String) (e : Effect) : Frame (emit db t e) db :=
-  ⟨rfl, rfl, rfl, rfl, rfl, rfl⟩
+  ⟨rfl, rfl, rfl, rfl, rfl, rfl, rfl⟩
 
 theorem frame_checkDat (db : DB) : Frame (checkDat db) db := by
   unfold checkDat
   split
   · exact Frame.refl _
-  · exact ⟨rfl, rfl, rfl, rfl, rfl, rfl⟩
+  · exact ⟨rfl, rfl, rfl, rfl, rfl, rfl, rfl⟩
 
 theorem frame_checkLog (db : DB) : Frame (checkLog db) db := by
   unfold checkLog
   split
   · exact Frame.refl _
-  · exact ⟨rfl, rfl, rfl, rfl, rfl, rfl⟩
+  · exact ⟨rfl, rfl, rfl, rfl, rfl, rfl, rfl⟩
 
 theorem frame_foldl {α : Type} (f : DB → α → DB) (hf : ∀ d a, Frame (f d a) d) (l : List α) (db : DB) :
     Frame (l.foldl f db) db := by
@@ -89,51 +92,51 @@ theorem frame_writedatfile (db : DB) : Frame (writedatfile db) db := by
   unfold writedatfile
   dsimp only
   refine (frame_emit _ _ _).trans ((frame_emit _ _ _).trans ?_)
-  refine Frame.trans (b := bufFlush _ _ _) ⟨rfl, rfl, rfl, rfl, rfl, rfl⟩ ?_
+  refine Frame.trans (b := bufFlush _ _ _) ⟨rfl, rfl, rfl, rfl, rfl, rfl, rfl⟩ ?_
   refine (frame_bufFlush _ (idxSink_framed _) _ _).trans ?_
   refine (frame_bufWriteAll _ (idxSink_framed _) _ _ _).trans ?_
-  exact ⟨rfl, rfl, rfl, rfl, rfl, rfl⟩
+  exact ⟨rfl, rfl, rfl, rfl, rfl, rfl, rfl⟩
 
 /-! ### cached stores: every record has its data in memory and no NO_CACHE flag -/
 
 
-theorem loadrec_cached (fs : FS) (r : Rec) (h : RecCached r) : loadrec fs r = some r := by
+theorem loadrec_cached (fs : FS) (r : Rec) (h : RecCached eg r) : loadrec fs r = some r := by
   unfold loadrec
   obtain ⟨h1, _⟩ := h
   cases hd : r.data with
   | none => simp [hd] at h1
   | some v => rfl
 
-theorem freerec_cached (r : Rec) (h : hasFlag r.flags NO_CACHE = false) : freerec r = r := by
+theorem freerec_cached (e : Bool) (r : Rec) (h : hasFlag r.flags (ncOf e) = false) : freerec e r = r := by
   unfold freerec
   simp [h]
 
 theorem defragSink_framed (seq : Nat) : SinkFramed (defragSink seq) := fun _ _ => frame_emit _ _ _
 
 theorem defragRec_cached (sink : DB → Bytes → DB) (hs : SinkFramed sink) (d : DB) (w : BufW)
-    (acc : List (Key × Rec)) (kr : Key × Rec) (hf : d.failed = none) (hc : RecCached kr.2) :
+    (acc : List (Key × Rec)) (kr : Key × Rec) (hf : d.failed = none) (he : d.eager = eg) (hc : RecCached eg kr.2) :
     ∃ d' w' r', defragRec sink (d, w, acc) kr = (d', w', acc ++ [(kr.1, r')]) ∧ Frame d' d ∧
-      absRec r' = absRec kr.2 ∧ RecCached r' := by
+      absRec r' = absRec kr.2 ∧ RecCached eg r' := by
   unfold defragRec
   simp only [hf, loadrec_cached d.fs kr.2 hc]
   refine ⟨_, _, _, rfl, ?_, ?_, ?_⟩
   · have h := frame_bufWrite sink hs d w (kr.2.data.getD [])
-    exact ⟨h.index, h.failed, h.volatile, h.opts, h.noSync, h.pending⟩
-  · rw [freerec_cached _ (by exact hc.2)]; rfl
-  · rw [freerec_cached _ (by exact hc.2)]; exact hc
+    exact ⟨h.index, h.failed, h.volatile, h.opts, h.noSync, h.pending, h.eager⟩
+  · rw [(frame_bufWrite sink hs d w (kr.2.data.getD [])).eager, he, freerec_cached _ _ (by exact hc.2)]; rfl
+  · rw [(frame_bufWrite sink hs d w (kr.2.data.getD [])).eager, he, freerec_cached _ _ (by exact hc.2)]; exact hc
 
 theorem defrag_fold_cached (sink : DB → Bytes → DB) (hs : SinkFramed sink) (l : List (Key × Rec))
-    (hl : AllCached l) (d : DB) (w : BufW) (acc : List (Key × Rec)) (hf : d.failed = none) :
+    (hl : AllCached eg l) (d : DB) (w : BufW) (acc : List (Key × Rec)) (hf : d.failed = none) (he : d.eager = eg) :
     ∃ d' w' l', l.foldl (defragRec sink) (d, w, acc) = (d', w', acc ++ l') ∧ Frame d' d ∧
-      l'.map absE = l.map absE ∧ AllCached l' := by
+      l'.map absE = l.map absE ∧ AllCached eg l' := by
   induction l generalizing d w acc with
   | nil => exact ⟨d, w, [], by simp, Frame.refl _, rfl, by intro _ h; cases h⟩
   | cons kr t ih =>
     obtain ⟨d1, w1, r1, h1, hfr1, habs1, hc1⟩ :=
-      defragRec_cached sink hs d w acc kr hf (hl kr (List.mem_cons_self))
+      defragRec_cached sink hs d w acc kr hf he (hl kr (List.mem_cons_self))
     have hf1 : d1.failed = none := by rw [hfr1.failed]; exact hf
     obtain ⟨d2, w2, l2, h2, hfr2, habs2, hc2⟩ :=
-      ih (fun x hx => hl x (List.mem_cons_of_mem _ hx)) d1 w1 (acc ++ [(kr.1, r1)]) hf1
+      ih (fun x hx => hl x (List.mem_cons_of_mem _ hx)) d1 w1 (acc ++ [(kr.1, r1)]) hf1 (hfr1.eager.trans he)
     refine ⟨d2, w2, (kr.1, r1) :: l2, ?_, hfr2.trans hfr1, ?_, ?_⟩
     · simp only [List.foldl_cons, h1, h2, List.append_assoc, List.singleton_append]
     · simp only [List.map_cons, habs2]
@@ -145,7 +148,7 @@ theorem defrag_fold_cached (sink : DB → Bytes → DB) (hs : SinkFramed sink) (
       | tail _ hx => exact hc2 x hx
 
 theorem Cached.of_frame {a b : DB} (h : Frame a b) (hc : Cached b) : Cached a :=
-  ⟨h.failed.trans hc.1, by rw [AllCached, h.index]; exact hc.2⟩
+  ⟨h.failed.trans hc.1, by rw [h.eager, AllCached, h.index]; exact hc.2⟩
 
 /-- what the refinement needs to know about a disk-level operation on a cached store -/
 structure Keeps (a b : DB) : Prop where
@@ -153,39 +156,42 @@ structure Keeps (a b : DB) : Prop where
   abs : absv a = absv b
   volatile : a.volatile = b.volatile
   opts : a.opts = b.opts
+  eager : a.eager = b.eager
 
 theorem Keeps.of_frame {a b : DB} (h : Frame a b) (hc : Cached b) : Keeps a b :=
-  ⟨Cached.of_frame h hc, by simp only [absv, h.index], h.volatile, h.opts⟩
+  ⟨Cached.of_frame h hc, by simp only [absv, h.index], h.volatile, h.opts, h.eager⟩
 
 theorem Keeps.trans {a b c : DB} (h1 : Keeps a b) (h2 : Keeps b c) : Keeps a c :=
-  ⟨h1.cached, h1.abs.trans h2.abs, h1.volatile.trans h2.volatile, h1.opts.trans h2.opts⟩
+  ⟨h1.cached, h1.abs.trans h2.abs, h1.volatile.trans h2.volatile, h1.opts.trans h2.opts, h1.eager.trans h2.eager⟩
 
 theorem defragStart_frame (db : DB) : Frame (defragStart db) db :=
-  (frame_checkDat _).trans ⟨rfl, rfl, rfl, rfl, rfl, rfl⟩
+  (frame_checkDat _).trans ⟨rfl, rfl, rfl, rfl, rfl, rfl, rfl⟩
 
 theorem defragFinish_spec (seq : Nat) (d : DB) (w : BufW) (recs : List (Key × Rec)) :
     (defragFinish seq d w recs).index = recs ∧ (defragFinish seq d w recs).failed = d.failed ∧
     (defragFinish seq d w recs).volatile = d.volatile ∧ (defragFinish seq d w recs).opts = d.opts ∧
-    (defragFinish seq d w recs).noSync = d.noSync ∧ (defragFinish seq d w recs).pending = [] := by
+    (defragFinish seq d w recs).noSync = d.noSync ∧ (defragFinish seq d w recs).pending = [] ∧
+    (defragFinish seq d w recs).eager = d.eager := by
   have h := (frame_cleanupold (writedatfile (bufFlush (defragSink seq) { d with index := recs } w))
       (if recs.isEmpty then [] else [seq])).trans
     ((frame_writedatfile _).trans (frame_bufFlush _ (defragSink_framed seq) { d with index := recs } w))
-  exact ⟨h.index, h.failed, h.volatile, h.opts, h.noSync, rfl⟩
+  exact ⟨h.index, h.failed, h.volatile, h.opts, h.noSync, rfl, h.eager⟩
 
 theorem defrag_cached (db : DB) (h : Cached db) : Keeps (defrag db) db := by
   have hfr0 := defragStart_frame db
   obtain ⟨d', w', l', hfold, hfr, habs, hc⟩ :=
     defrag_fold_cached (defragSink (defragStart db).dataSeq) (defragSink_framed _) db.index h.2
-      (defragStart db) {} [] (hfr0.failed.trans h.1)
+      (defragStart db) {} [] (hfr0.failed.trans h.1) hfr0.eager
   have hf' : d'.failed = none := (hfr.trans hfr0).failed.trans h.1
   have hd : defrag db = defragFinish (defragStart db).dataSeq d' w' l' := by
     unfold defrag
     simp only [hfr0.index, hfold, List.nil_append, hf']
-  obtain ⟨hi, hfa, hv, ho, _, _⟩ := defragFinish_spec (defragStart db).dataSeq d' w' l'
+  obtain ⟨hi, hfa, hv, ho, _, _, hfe⟩ := defragFinish_spec (defragStart db).dataSeq d' w' l'
   rw [hd]
-  refine ⟨⟨hfa.trans hf', ?_⟩, ?_, hv.trans (hfr.trans hfr0).volatile, ho.trans (hfr.trans hfr0).opts⟩
-  · show AllCached _
-    rw [hi]; exact hc
+  have hee : (defragFinish (defragStart db).dataSeq d' w' l').eager = db.eager := hfe.trans (hfr.trans hfr0).eager
+  refine ⟨⟨hfa.trans hf', ?_⟩, ?_, hv.trans (hfr.trans hfr0).volatile, ho.trans (hfr.trans hfr0).opts, hee⟩
+  · show AllCached _ _
+    rw [hi, hee]; exact hc
   · show List.map absE _ = _
     rw [hi, habs]; rfl
 
@@ -284,24 +290,24 @@ theorem mem_ierase {α : Type} (k : Key) (l : List (Key × α)) (x : Key × α) 
 
 theorem absv_eq_mapV (db : DB) : absv db = mapV absRec db.index := rfl
 
-theorem allCached_iset {l : List (Key × Rec)} (h : AllCached l) (k : Key) (r : Rec) (hr : RecCached r) :
-    AllCached (iset k r l) := by
+theorem allCached_iset {l : List (Key × Rec)} (h : AllCached eg l) (k : Key) (r : Rec) (hr : RecCached eg r) :
+    AllCached eg (iset k r l) := by
   intro x hx
   rcases mem_iset k r l x hx with h1 | h1
   · rw [h1]; exact hr
   · exact h x h1
 
-theorem allCached_ierase {l : List (Key × Rec)} (h : AllCached l) (k : Key) : AllCached (ierase k l) :=
+theorem allCached_ierase {l : List (Key × Rec)} (h : AllCached eg l) (k : Key) : AllCached eg (ierase k l) :=
   fun x hx => h x (mem_ierase k l x hx)
 
-theorem allCached_lookup {l : List (Key × Rec)} (h : AllCached l) (k : Key) (r : Rec)
-    (hl : ilookup k l = some r) : RecCached r := by
+theorem allCached_lookup {l : List (Key × Rec)} (h : AllCached eg l) (k : Key) (r : Rec)
+    (hl : ilookup k l = some r) : RecCached eg r := by
   obtain ⟨j, hm⟩ := ilookup_mem k r l hl
   exact h (j, r) hm
 
 /-! ### sync on a cached store -/
 
-theorem Keeps.refl {a : DB} (h : Cached a) : Keeps a a := ⟨h, rfl, rfl, rfl⟩
+theorem Keeps.refl {a : DB} (h : Cached a) : Keeps a a := ⟨h, rfl, rfl, rfl, rfl⟩
 
 theorem syncKey_cached (st : DB × Bytes) (k : Key) (h : Cached st.1) :
     Keeps (syncKey st k).1 st.1 := by
@@ -316,9 +322,10 @@ theorem syncKey_cached (st : DB × Bytes) (k : Key) (h : Cached st.1) :
     | some val =>
       simp only [hd]
       unfold syncRec
-      have hnc : hasFlag rc.flags NO_CACHE = false := hrc.2
-      simp only [hnc]
-      refine ⟨⟨h.1, ?_⟩, ?_, rfl, rfl⟩
+      have hnc : hasFlag rc.flags (ncOf st.1.eager) = false := hrc.2
+      have hee : (emit st.1 "qdb.sync:data-written" (.writeDat st.1.dataSeq st.1.lastPos val)).eager = st.1.eager := rfl
+      simp only [hee, hnc]
+      refine ⟨⟨h.1, ?_⟩, ?_, rfl, rfl, rfl⟩
       · exact allCached_iset h.2 k _ ⟨by simp [hd], hrc.2⟩
       · show mapV absRec (iset k _ st.1.index) = mapV absRec st.1.index
         rw [mapV_iset]
@@ -338,8 +345,10 @@ theorem syncFold_cached (ks : List Key) (st : DB × Bytes) (h : Cached st.1) :
 theorem syncFinish_cached (db : DB) (bidx : Bytes) (h : Cached db) : Keeps (syncFinish db bidx) db := by
   have h2 : Keeps { emit (checkLog db) "qdb.sync:log-written" (.appendLog bidx) with pending := [] } db := by
     have := (frame_emit (checkLog db) "qdb.sync:log-written" (.appendLog bidx)).trans (frame_checkLog db)
-    exact ⟨⟨this.failed.trans h.1, by rw [AllCached]; intro kr hkr; exact h.2 kr (this.index ▸ hkr)⟩,
-      by unfold absv; dsimp only; rw [this.index], this.volatile, this.opts⟩
+    exact ⟨⟨this.failed.trans h.1, by
+        show AllCached (emit (checkLog db) "qdb.sync:log-written" (.appendLog bidx)).eager _
+        rw [this.eager, AllCached]; intro kr hkr; exact h.2 kr (this.index ▸ hkr)⟩,
+      by unfold absv; dsimp only; rw [this.index], this.volatile, this.opts, this.eager⟩
   unfold syncFinish
   dsimp only
   split
@@ -402,6 +411,65 @@ theorem applyBF_keeps_noNC (fl res : Nat) (h1 : hasFlag fl NO_CACHE = false) (h2
 
 /-! ### the public operations on a cached store -/
 
+theorem hasFlag_big_of_lt (x : Nat) (h : x < 2^40) : hasFlag x (2^40) = false := by
+  rw [hasFlag_false, Nat.div_eq_of_lt h]
+
+theorem applyBF_big (fl res : Nat) (h1 : hasFlag fl (2^40) = false) : hasFlag (applyBrowsingFlags fl res) (2^40) = false := by
+  have hs : ∀ x b, (b = 1 ∨ b = 2) → hasFlag x (2^40) = false → hasFlag (setFlag x b) (2^40) = false := by
+    intro x b hb hx
+    unfold setFlag
+    split
+    · exact hx
+    · rename_i hn
+      have hn' : hasFlag x b = false := by simpa using hn
+      rw [hasFlag_false] at hx hn' ⊢
+      rcases hb with rfl | rfl <;> omega
+  have hc : ∀ x b, (b = 1 ∨ b = 2) → hasFlag x (2^40) = false → hasFlag (clrFlag x b) (2^40) = false := by
+    intro x b hb hx
+    unfold clrFlag
+    split
+    · rename_i hn
+      rw [hasFlag_true] at hn
+      rw [hasFlag_false] at hx ⊢
+      rcases hb with rfl | rfl <;> omega
+    · exact hx
+  unfold applyBrowsingFlags
+  have hA : hasFlag (if hasFlag res NO_BROWSE = true then setFlag fl NO_BROWSE
+      else if hasFlag res YES_BROWSE = true then clrFlag fl NO_BROWSE else fl) (2^40) = false := by
+    split
+    · exact hs _ _ (Or.inl rfl) h1
+    · split
+      · exact hc _ _ (Or.inl rfl) h1
+      · exact h1
+  dsimp only
+  split
+  · exact hs _ _ (Or.inr rfl) hA
+  · split
+    · exact hc _ _ (Or.inr rfl) hA
+    · exact hA
+
+/-- `applyBrowsingFlags` does not set the tested flag unless asked to -/
+theorem applyBF_keeps (e : Bool) (fl res : Nat) (h1 : hasFlag fl (ncOf e) = false) (h2 : hasFlag res (ncOf e) = false) :
+    hasFlag (applyBrowsingFlags fl res) (ncOf e) = false := by
+  cases e with
+  | false => exact applyBF_keeps_noNC fl res h1 h2
+  | true => exact applyBF_big fl res h1
+
+theorem yesCache_ok (e : Bool) : hasFlag YES_CACHE (ncOf e) = false := by cases e <;> decide
+theorem zeroFlags_ok (e : Bool) : hasFlag 0 (ncOf e) = false := by cases e <;> decide
+
+theorem memput_eager (db : DB) (k : Key) (r : Rec) : (memput db k r).eager = db.eager := by
+  unfold memput
+  cases ilookup k db.index <;> dsimp only <;> (repeat' split) <;> rfl
+
+theorem memdel_eager (db : DB) (k : Key) : (memdel db k).eager = db.eager := by
+  unfold memdel
+  cases ilookup k db.index <;> dsimp only <;> (repeat' split) <;> rfl
+
+theorem addPending_eager (db : DB) (k : Key) : (addPending db k).eager = db.eager := by
+  unfold addPending
+  split <;> rfl
+
 theorem memput_spec (db : DB) (k : Key) (r : Rec) :
     (memput db k r).index = iset k r db.index ∧ (memput db k r).failed = db.failed ∧
     (memput db k r).volatile = db.volatile ∧ (memput db k r).opts = db.opts := by
@@ -435,21 +503,22 @@ theorem addPending_frame (db : DB) (k : Key) :
 theorem afterChange_cached (db : DB) (k : Key) (h : Cached db) : Keeps (afterChange db k) db := by
   obtain ⟨hi, hf, hv, ho⟩ := addPending_frame db k
   have h1 : Keeps (addPending db k) db :=
-    ⟨⟨hf.trans h.1, by rw [AllCached, hi]; exact h.2⟩, by rw [absv, absv, hi], hv, ho⟩
+    ⟨⟨hf.trans h.1, by rw [addPending_eager, AllCached, hi]; exact h.2⟩, by rw [absv, absv, hi], hv, ho,
+     addPending_eager db k⟩
   unfold afterChange
   split
-  · exact ⟨h, rfl, rfl, rfl⟩
+  · exact ⟨h, rfl, rfl, rfl, rfl⟩
   · split
     · exact (sync_cached _ h1.cached).trans h1
     · exact h1
 
-theorem putExt_cached (db : DB) (k : Key) (v : Bytes) (f : Nat) (h : Cached db) (hf : hasFlag f NO_CACHE = false) :
+theorem putExt_cached (db : DB) (k : Key) (v : Bytes) (f : Nat) (h : Cached db) (hf : hasFlag f (ncOf db.eager) = false) :
     Cached (putExt db k v f) ∧ absv (putExt db k v f) = iset k (v, f) (absv db) := by
   unfold putExt
   simp only [h.1, Option.isSome_none, Bool.false_eq_true, ↓reduceIte]
   obtain ⟨hi, hfa, _, _⟩ := memput_spec db k (newRec v f)
   have hc : Cached (memput db k (newRec v f)) :=
-    ⟨hfa.trans h.1, by rw [AllCached, hi]; exact allCached_iset h.2 k _ ⟨rfl, hf⟩⟩
+    ⟨hfa.trans h.1, by rw [memput_eager, AllCached, hi]; exact allCached_iset h.2 k _ ⟨rfl, hf⟩⟩
   have hk := afterChange_cached _ k hc
   refine ⟨hk.cached, hk.abs.trans ?_⟩
   rw [absv_eq_mapV, hi, mapV_iset]; rfl
@@ -459,7 +528,7 @@ theorem del_cached (db : DB) (k : Key) (h : Cached db) :
   unfold del
   simp only [h.1, Option.isSome_none, Bool.false_eq_true, ↓reduceIte]
   obtain ⟨hi, hfa, _, _⟩ := memdel_spec db k
-  have hc : Cached (memdel db k) := ⟨hfa.trans h.1, by rw [AllCached, hi]; exact allCached_ierase h.2 k⟩
+  have hc : Cached (memdel db k) := ⟨hfa.trans h.1, by rw [memdel_eager, AllCached, hi]; exact allCached_ierase h.2 k⟩
   have hk := afterChange_cached _ k hc
   refine ⟨hk.cached, hk.abs.trans ?_⟩
   rw [absv_eq_mapV, hi, mapV_ierase]; rfl
@@ -478,7 +547,7 @@ theorem get_cached (db : DB) (k : Key) (h : Cached db) :
     have hr := allCached_lookup h.2 k r hl
     simp only [loadrec_cached db.fs r hr, Option.map_some]
     refine ⟨⟨rfl, ?_⟩, ?_, ?_⟩
-    · exact allCached_iset h.2 k _ ⟨hr.1, applyBF_keeps_noNC _ _ hr.2 (by decide : hasFlag YES_CACHE NO_CACHE = false)⟩
+    · exact allCached_iset h.2 k _ ⟨hr.1, applyBF_keeps _ _ _ hr.2 (yesCache_ok _)⟩
     · show mapV absRec (iset k _ db.index) = _
       rw [mapV_iset]; rfl
     · obtain ⟨h1, _⟩ := hr
@@ -486,7 +555,7 @@ theorem get_cached (db : DB) (k : Key) (h : Cached db) :
       | none => simp [hd] at h1
       | some v => simp [absRec, hd]
 
-theorem applyFlags_cached (db : DB) (k : Key) (fl : Nat) (h : Cached db) (hf : hasFlag fl NO_CACHE = false) :
+theorem applyFlags_cached (db : DB) (k : Key) (fl : Nat) (h : Cached db) (hf : hasFlag fl (ncOf db.eager) = false) :
     Cached (applyFlags db k fl) ∧ absv (applyFlags db k fl) = mstep (absv db) (.applyFlags k fl) := by
   unfold applyFlags
   simp only [h.1, Option.isSome_none, Bool.false_eq_true, ↓reduceIte, mstep, ilookup_absv]
@@ -496,15 +565,15 @@ theorem applyFlags_cached (db : DB) (k : Key) (fl : Nat) (h : Cached db) (hf : h
     have hr := allCached_lookup h.2 k r hl
     simp only [Option.map_some]
     refine ⟨⟨rfl, ?_⟩, ?_⟩
-    · exact allCached_iset h.2 k _ ⟨hr.1, applyBF_keeps_noNC _ _ hr.2 hf⟩
+    · exact allCached_iset h.2 k _ ⟨hr.1, applyBF_keeps _ _ _ hr.2 hf⟩
     · show mapV absRec (iset k _ db.index) = _
       rw [mapV_iset]; rfl
 
 
-theorem walkRes_ok (w : List (Key × Nat)) (hw : WalkOK w) (k : Key) : hasFlag (walkRes w k) NO_CACHE = false := by
+theorem walkRes_ok (w : List (Key × Nat)) (hw : WalkOK eg w) (k : Key) : hasFlag (walkRes w k) (ncOf eg) = false := by
   unfold walkRes
   cases hf : w.find? (·.1 = k) with
-  | none => decide
+  | none => exact zeroFlags_ok eg
   | some kf => exact hw kf (List.mem_of_find?_eq_some hf)
 
 /-- what Browse does to one record of a cached store -/
@@ -515,8 +584,9 @@ def browseRec (all : Bool) (w : List (Key × Nat)) (kr : Key × Rec) : Key × Re
 def browseOut (all : Bool) (kr : Key × Rec) : Option (Key × Bytes) :=
   if !all && hasFlag kr.2.flags NO_BROWSE then none else some (kr.1, kr.2.data.getD [])
 
-theorem browseFold_cached (all : Bool) (w : List (Key × Nat)) (hw : WalkOK w) (l : List (Key × Rec))
-    (hl : AllCached l) (db : DB) (hf : db.failed = none) (acc : List (Key × Rec)) (out : List (Key × Bytes)) :
+theorem browseFold_cached (all : Bool) (w : List (Key × Nat)) (hw : WalkOK eg w) (l : List (Key × Rec))
+    (hl : AllCached eg l) (db : DB) (hf : db.failed = none) (he : db.eager = eg) (acc : List (Key × Rec))
+    (out : List (Key × Bytes)) :
     l.foldl (browseStep all w) (db, acc, out) =
       (db, acc ++ l.map (browseRec all w), out ++ l.filterMap (browseOut all)) := by
   induction l generalizing acc out with
@@ -530,18 +600,18 @@ theorem browseFold_cached (all : Bool) (w : List (Key × Nat)) (hw : WalkOK w) (
       split
       · simp
       · simp only [loadrec_cached db.fs kr.2 hc]
-        rw [freerec_cached _ (applyBF_keeps_noNC _ _ hc.2 (walkRes_ok w hw kr.1))]
+        rw [he, freerec_cached _ _ (applyBF_keeps _ _ _ hc.2 (walkRes_ok w hw kr.1))]
         simp
     simp only [List.foldl_cons, hstep]
     rw [ih (fun x hx => hl x (List.mem_cons_of_mem _ hx))]
     cases hb : browseOut all kr <;> simp [hb]
 
-theorem browseGen_cached (all : Bool) (db : DB) (w : List (Key × Nat)) (h : Cached db) (hw : WalkOK w) :
+theorem browseGen_cached (all : Bool) (db : DB) (w : List (Key × Nat)) (h : Cached db) (hw : WalkOK db.eager w) :
     (browseGen all db w).1 = { db with index := db.index.map (browseRec all w) } ∧
     (browseGen all db w).2 = db.index.filterMap (browseOut all) := by
   unfold browseGen
   simp only [h.1, Option.isSome_none, Bool.false_eq_true, ↓reduceIte]
-  rw [browseFold_cached all w hw db.index h.2 db h.1 [] []]
+  rw [browseFold_cached all w hw db.index h.2 db h.1 rfl [] []]
   simp [h.1]
 
 theorem absE_browseRec (w : List (Key × Nat)) (kr : Key × Rec) :
@@ -552,7 +622,7 @@ theorem absE_browseRec (w : List (Key × Nat)) (kr : Key × Rec) :
   simp only [Bool.not_false, Bool.true_and]
   split <;> rfl
 
-theorem browse_cached (db : DB) (w : List (Key × Nat)) (h : Cached db) (hw : WalkOK w) :
+theorem browse_cached (db : DB) (w : List (Key × Nat)) (h : Cached db) (hw : WalkOK db.eager w) :
     Cached (browse db w).1 ∧ absv (browse db w).1 = mstep (absv db) (.browse w) ∧
     (browse db w).2 = mbrowseOut (absv db) := by
   obtain ⟨h1, h2⟩ := browseGen_cached false db w h hw
@@ -565,7 +635,7 @@ theorem browse_cached (db : DB) (w : List (Key × Nat)) (h : Cached db) (hw : Wa
     unfold browseRec
     split
     · exact hc
-    · exact ⟨hc.1, applyBF_keeps_noNC _ _ hc.2 (walkRes_ok w hw kr.1)⟩
+    · exact ⟨hc.1, applyBF_keeps _ _ _ hc.2 (walkRes_ok w hw kr.1)⟩
   · show List.map absE (List.map (browseRec false w) db.index) = mbrowseState (List.map absE db.index) w
     unfold mbrowseState
     simp only [List.map_map]
@@ -583,10 +653,10 @@ theorem browse_cached (db : DB) (w : List (Key × Nat)) (h : Cached db) (hw : Wa
 
 theorem notFailed {db : DB} (h : Cached db) : ¬ (db.failed.isSome = true) := by simp [h.1]
 
-theorem step_cached (db : DB) (op : Op) (h : Cached db) (ok : OpOK op) :
+theorem step_cached (db : DB) (op : Op) (h : Cached db) (ok : OpOK db.eager op) :
     Cached (step db op) ∧ absv (step db op) = mstep (absv db) op := by
   cases op with
-  | put k v => exact putExt_cached db k v 0 h (by decide)
+  | put k v => exact putExt_cached db k v 0 h (zeroFlags_ok _)
   | putExt k v f => exact putExt_cached db k v f h ok
   | del k => exact del_cached db k h
   | get k => exact ⟨(get_cached db k h).1, (get_cached db k h).2.1⟩
@@ -619,13 +689,83 @@ theorem step_cached (db : DB) (op : Op) (h : Cached db) (ok : OpOK op) :
     · exact ⟨h, rfl⟩
   | reopen a b c => exact absurd ok (by simp [OpOK])
 
-theorem run_cached (ops : List Op) (db : DB) (h : Cached db) (ok : ∀ op ∈ ops, OpOK op) :
+theorem memput_cachedC (db : DB) (k : Key) (v : Bytes) (f : Nat) (h : Cached db)
+    (hf : hasFlag f (ncOf db.eager) = false) : Cached (memput db k (newRec v f)) := by
+  obtain ⟨hi, hfa, _, _⟩ := memput_spec db k (newRec v f)
+  exact ⟨hfa.trans h.1, by rw [memput_eager, AllCached, hi]; exact allCached_iset h.2 k _ ⟨rfl, hf⟩⟩
+
+theorem memdel_cachedC (db : DB) (k : Key) (h : Cached db) : Cached (memdel db k) := by
+  obtain ⟨hi, hfa, _, _⟩ := memdel_spec db k
+  exact ⟨hfa.trans h.1, by rw [memdel_eager, AllCached, hi]; exact allCached_ierase h.2 k⟩
+
+/-- the ghost field never changes -/
+theorem step_eager (db : DB) (op : Op) (h : Cached db) (ok : OpOK db.eager op) : (step db op).eager = db.eager := by
+  cases op with
+  | put k v =>
+    show (putExt db k v 0).eager = _
+    unfold putExt
+    rw [if_neg (notFailed h)]
+    exact (afterChange_cached _ k (memput_cachedC db k v 0 h (zeroFlags_ok _))).eager.trans (memput_eager _ _ _)
+  | putExt k v f =>
+    show (putExt db k v f).eager = _
+    unfold putExt
+    rw [if_neg (notFailed h)]
+    exact (afterChange_cached _ k (memput_cachedC db k v f h ok)).eager.trans (memput_eager _ _ _)
+  | del k =>
+    show (del db k).eager = _
+    unfold del
+    rw [if_neg (notFailed h)]
+    exact (afterChange_cached _ k (memdel_cachedC db k h)).eager.trans (memdel_eager _ _)
+  | get k =>
+    show (Qdb.get db k).1.eager = _
+    unfold Qdb.get
+    rw [if_neg (notFailed h)]
+    cases hl : ilookup k db.index with
+    | none => rfl
+    | some r => simp only [loadrec_cached db.fs r (allCached_lookup h.2 k r hl)]
+  | browse w =>
+    show (browse db w).1.eager = _
+    obtain ⟨h1, _⟩ := browseGen_cached false db w h ok
+    unfold browse
+    rw [h1]
+  | applyFlags k fl =>
+    show (applyFlags db k fl).eager = _
+    unfold applyFlags
+    rw [if_neg (notFailed h)]
+    cases ilookup k db.index <;> rfl
+  | defrag f =>
+    show (defragOp db f).1.eager = _
+    unfold defragOp
+    rw [if_neg (notFailed h)]
+    split
+    · rfl
+    · dsimp only
+      split
+      · exact (defrag_cached db h).eager
+      · rfl
+  | sync =>
+    show (syncOp db).eager = _
+    unfold syncOp
+    rw [if_neg (notFailed h)]
+    split
+    · rfl
+    · have h' : Cached { db with noSync := false } := h
+      exact (sync_cached _ h').eager
+  | noSync =>
+    show (noSyncOp db).eager = _
+    unfold noSyncOp
+    rw [if_neg (notFailed h)]
+    split <;> rfl
+  | reopen a b c => exact absurd ok (by simp [OpOK])
+
+theorem run_cached (ops : List Op) (db : DB) (h : Cached db) (ok : ∀ op ∈ ops, OpOK db.eager op) :
     Cached (run db ops) ∧ absv (run db ops) = mrun (absv db) ops := by
   induction ops generalizing db with
   | nil => exact ⟨h, rfl⟩
   | cons op t ih =>
     obtain ⟨h1, h2⟩ := step_cached db op h (ok op List.mem_cons_self)
-    obtain ⟨h3, h4⟩ := ih (step db op) h1 (fun o ho => ok o (List.mem_cons_of_mem _ ho))
+    have he := step_eager db op h (ok op List.mem_cons_self)
+    obtain ⟨h3, h4⟩ := ih (step db op) h1 (fun o ho => by rw [he]; exact ok o (List.mem_cons_of_mem _ ho))
     refine ⟨h3, ?_⟩
     show absv (run (step db op) t) = mrun (mstep (absv db) op) t
     rw [h4, h2]
